@@ -107,4 +107,153 @@ def oracle (delta slack : Int) (evs rs : List (Int × Bool)) : Option String :=
   if !(evs.all (served delta slack rs)) then some "liveness" else
   if !(noExtra evs rs false && noExtra evs rs true) then some "extra-run" else none
 
+/-! ## Run durations, the single worker and `Forget`
+
+`WorkQueue.process` (pkg/utils/workqueue/workqueue.go): `Get` — sync callback (takes `d`) — `Forget(item)`
+— `Done(item)`, ONE worker.  client-go's base queue (`queue.go`): `Add(b)` is a no-op if `b` is dirty;
+if `b` is being processed it is only marked dirty and pushed at `Done`; otherwise it is pushed to the
+FIFO.  The delaying queue's heap holds at most the two items `false`/`true`; `root` is the entry that
+`waitingLoop` pops first (`heap.Push`/`heap.Fix` swap only on strictly smaller `readyAt`).
+
+`St` keeps its meaning: the limiter and the delaying queue; `St.runs` are the READY events (the
+`Add` calls on the base queue), which the instantaneous model identifies with the runs.  `StD` adds
+the worker; `starts` are the run STARTS (the observable of the property). -/
+
+/-- the limiter's `Forget(item)` at time `now`: `last ↦ last'` -/
+abbrev Forget := Option Int → Int → Option Int
+
+/-- the code that exists: `Forget` is a no-op (and `NumRequeues` is constantly 0, nobody reads it) -/
+def forgetId : Forget := fun last _ => last
+
+/-- the seeded variant C13e: `Forget` re-bases `last` on the end of the run -/
+def forgetNow : Forget := fun _ now => some now
+
+structure StD where
+  q      : St := {}
+  root   : Bool := false                 -- heap root of the delaying queue when both items wait
+  queue  : List Bool := []               -- base FIFO (dirty and not being processed)
+  busy   : Option (Bool × Int) := none   -- item being processed and the end of its run
+  dirty  : Bool := false                 -- the item being processed was added again
+  durs   : List Int := []                -- durations of the runs still to start (0 beyond the list)
+  starts : List (Int × Bool) := []       -- run starts, most recent first
+  tie    : Bool := false                 -- a run end coincided with an arrival / another item's deadline
+
+def setLast (s : StD) (l : Option Int) : StD := { s with q := { s.q with last := l } }
+
+/-- base queue `Add(b)` -/
+def addD (s : StD) (b : Bool) : StD :=
+  if s.queue.contains b then s
+  else match s.busy with
+    | some (c, _) => if c = b then { s with dirty := true } else { s with queue := s.queue ++ [b] }
+    | none => { s with queue := s.queue ++ [b] }
+
+/-- the idle worker takes queued items at time `now`; a run of duration `≤ 0` completes at once
+(`Forget`, `Done` with nothing dirty) and the worker takes the next one -/
+def drainD (fg : Forget) (now : Int) : Nat → StD → StD
+  | 0, s => s
+  | n + 1, s =>
+    match s.busy, s.queue with
+    | none, b :: rest =>
+      let d := s.durs.headD 0
+      let s := { s with queue := rest, durs := s.durs.tail, starts := (now, b) :: s.starts }
+      if d ≤ 0 then drainD fg now n (setLast s (fg s.q.last now))
+      else { s with busy := some (b, now + d) }
+    | _, _ => s
+
+def drain (fg : Forget) (now : Int) (s : StD) : StD := drainD fg now s.queue.length s
+
+/-- the run in progress ends: `Forget`, `Done` (a dirty item is pushed), next `Get` -/
+def finishD (fg : Forget) (s : StD) : StD :=
+  match s.busy with
+  | some (b, e) =>
+    drain fg e { setLast s (fg s.q.last e) with
+      busy := none, dirty := false, queue := if s.dirty then s.queue ++ [b] else s.queue }
+  | none => s
+
+/-- let the worker catch up with the clock: every run end `≤ lim` (`none`: no limit) happens.
+`who` = the item about to be added at `lim` (`none`: an arrival, whose `When` races with `Forget`).
+A run end at exactly `lim` races with that `Add`: the outcome depends on the order unless it is the same
+item and it is not dirty (then both orders queue it once) — flagged `tie`, the case is not compared. -/
+def catchUpD (fg : Forget) (lim : Option Int) (who : Option Bool) : Nat → StD → StD
+  | 0, s => s
+  | n + 1, s =>
+    match s.busy with
+    | some (b, e) =>
+      if lim.all (e ≤ ·) then
+        catchUpD fg lim who n (finishD fg { s with tie := s.tie || (lim == some e && (who != some b || s.dirty)) })
+      else s
+    | none => s
+
+def catchUp (fg : Forget) (lim : Option Int) (who : Option Bool) (s : StD) : StD :=
+  catchUpD fg lim who (s.queue.length + 2) s
+
+/-- entries of the delaying queue that are ready at `t`, in the order `waitingLoop` pops them -/
+def due (q : St) (root : Bool) (t : Int) : List (Int × Bool) :=
+  let one (b : Bool) : List (Int × Bool) :=
+    match q.pend b with
+    | some d => if d ≤ t then [(d, b)] else []
+    | none => []
+  one root ++ one (!root)
+
+/-- both items are due at the same instant -/
+def sameInstant : List (Int × Bool) → Bool
+  | [a, b] => a.1 == b.1
+  | _ => false
+
+/-- a ready event: `waitingLoop` calls `Add(b)` at the deadline (`multi`: the other item is added at the
+same instant, a run ending right then races with the two `Add`s) -/
+def readyD (fg : Forget) (multi : Bool) (s : StD) (r : Int × Bool) : StD :=
+  drain fg r.1 (addD (catchUp fg (some r.1) (if multi then none else some r.2) s) r.2)
+
+/-- the delaying queue hands over everything that is due at `t` -/
+def serveDue (fg : Forget) (s : StD) (t : Int) : StD :=
+  let du := due s.q s.root t
+  du.foldl (readyD fg (sameInstant du)) s
+
+/-- heap root after the entries `≤ t` are popped and `b` is (re)inserted; `qf` = popped, `q'` = final -/
+def rootAfter (root : Bool) (qf q' : St) (b : Bool) (inserted : Bool) : Bool :=
+  let rf := if (qf.pend root).isSome then root else !root
+  if !inserted then rf else
+  match q'.pend (!b), q'.pend b with
+  | none, _ => b
+  | some y, some nb =>
+    if (qf.pend b).isSome && rf == b then b else if nb < y then b else !b
+  | some _, none => rf
+
+/-- `AddRateLimited(b)` at time `t`, after everything that happens up to `t` -/
+def arriveD (lim : Limiter) (fg : Forget) (s : StD) (t : Int) (b : Bool) : StD :=
+  let s := serveDue fg s t
+  let s := catchUp fg (some t) none s
+  let r := lim s.q.last t
+  let qf := fire s.q t
+  let q' := arrive lim s.q t b
+  let s := { s with q := q', root := rootAfter s.root qf q' b (!(r.2 ≤ 0)) }
+  if r.2 ≤ 0 then drain fg t (addD s b) else s
+
+def runAllD (lim : Limiter) (fg : Forget) (durs : List Int) (evs : List (Int × Bool)) : StD :=
+  evs.foldl (fun s e => arriveD lim fg s e.1 e.2) { durs := durs }
+
+/-- flush: all pending items become ready, all runs complete -/
+def flushD (fg : Forget) (s : StD) : StD :=
+  let m := max ((s.q.pend false).getD 0) ((s.q.pend true).getD 0)
+  let s := serveDue fg s m
+  catchUp fg none none { s with q := flush s.q }
+
+/-- run STARTS of a whole arrival pattern; the `k`-th run takes `durs[k]` (0 beyond the list) -/
+def simulateD (lim : Limiter) (fg : Forget) (durs : List Int) (evs : List (Int × Bool)) : List (Int × Bool) :=
+  (flushD fg (runAllD lim fg durs evs)).starts.reverse
+
+/-- the domain in which the Spec is judged on run starts: every run is shorter than the interval and
+either one kind of item only (the reload queue has a single item) or instantaneous runs.  Outside it the
+UNCHANGED code does not keep start-to-start spacing (see `Props.C13`: `long_run_breaks_spacing`,
+`other_kind_run_breaks_spacing`); those cases stay in the correspondence run. -/
+def judged (delta : Int) (durs : List Int) (evs : List (Int × Bool)) : Bool :=
+  durs.all (fun d => d < delta) &&
+    (durs.all (fun d => d ≤ 0) || evs.all (fun e => e.2 = false) || evs.all (fun e => e.2 = true))
+
+/-- Spec on the observed run starts -/
+def oracleD (delta slack : Int) (durs : List Int) (evs rs : List (Int × Bool)) : Option String :=
+  if judged delta durs evs then oracle delta slack evs rs
+  else if !(noExtra evs rs false && noExtra evs rs true) then some "extra-run" else none
+
 end HapVerif.C13
